@@ -424,7 +424,7 @@ class C19(Check):
                 if not cyc:
                     ctx.violate('each @import target is fetched once per import edge',
                                 w, {'fetched_vs_expected': extra},
-                                known='C19-unavailable-refetched' if only_unavailable else None)
+                                known=None)     # (C19-unavailable-refetched: fixed by ca7960c)
             try:
                 with time_limit(30):
                     result = cssutils.resolveImports(sheet)
@@ -456,7 +456,7 @@ class C19(Check):
                 if log[n_parse:]:
                     ctx.violate('flattening fetches nothing: every target was fetched when the sheet was parsed',
                                 w, {'fetched_during_resolveImports': log[n_parse:]},
-                                known='C19-unavailable-refetched' if orig.unavail else None)
+                                known=None)     # (C19-unavailable-refetched: fixed by ca7960c)
                 if not cyc:
                     flat = V.meaning(S.shallow(flat_rules), case['href'], case['vfs'])
                     left = V.unmerged_imports(orig, flat)
